@@ -20,9 +20,23 @@ NOTE = ("trusted: Coq 8.16.1 kernel (vm_compute used for tie lemmas and examples
         "correspondence check (harness + extracted OCaml model, ExtrOcamlBasic only); event-listener is modelled, not verified")
 
 CLAIMS["C01"] = proof(
-    "History half proved: C01_excl_hist — for every operation history (any length < 2^62, any number of futures, cancellation anywhere, every oracle stream, "
-    "borrowed and Arc flavours) at most one guard is alive, from the invariant state = 2*starved + guards. The schedule (micro-step) and happens-before halves are not yet "
-    "proved; they rest on the pinned site order/orderings (Tie_Mutex) and the correspondence check. " + CORR, NOTE)
+    "All three halves proved. History: C01_excl_hist — for every operation history (any length < 2^62, any number of futures, cancellation anywhere, every oracle stream, "
+    "borrowed and Arc flavours) at most one guard is alive (invariant state = 2*starved + guards). Schedules: C01_excl_sched — for EVERY interleaving of the atomic sites on the state word by ANY "
+    "number of threads (control flow over-approximated, site list pinned by Tie_Mutex) at most one thread holds the lock. Happens-before: C01_hb_view — in the release/acquire view semantics every "
+    "holder has seen the ticket of every earlier guard drop; its only premises about the code are the Orderings of the 6 acquiring sites and of unlock, read from the source (mutex_ord_premises). "
+    "Not modelled: 2^64 wrap in the micro-step machine, event-listener's own synchronisation (not needed), data races below the state word. " + CORR, NOTE)
+CLAIMS["C14"] = proof(
+    "Proved for every history: exact characterisation of try_lock, try_read, try_upgradable_read, try_write, try_upgrade, try_acquire (Arc forms included) by the state words and, through the counting "
+    "invariants, by what is alive (C14_*_exact); with nothing alive all succeed (C14_free_lock_succeeds). 'Never registers' is pinned by the tie lemmas (the try_* site lists contain no listen/poll) and "
+    "monitored at run time. Schedule half ('never succeeds in conflict') proved for the Mutex in C01_excl_sched, not yet for RwLock/Semaphore. " + CORR, NOTE)
+CLAIMS["C16"] = dict(category="proof",
+    text="Decided by proof over a finite domain computed from the source: for every public type with a parameter T (21, from Gen/Markers.v) and each of the 4 kinds of T, declared Send/Sync implies the bounds the "
+         "property demands (C16_send_sound, C16_sync_sound: forallb = true by vm_compute, lifted with forallb_forall), write side needs both (C16_write_side_needs_both), guards reaching DerefMut are invariant, only read "
+         "guards covariant (C16_variance, C16_only_read_guards_covariant), borrowed guards/futures cannot outlive the lock and MutexGuardArc::source needs T: Send (C16_lifetimes_and_source, rustc's verdicts). "
+         "Tie (C): the Coq marker/variance functions agree with rustc on 205 probes compiled against the working tree (Tie16). The rule set is the property text as functions of capabilities read from the source; "
+         "two facts are modelled (which guards coexist, RwLockReadGuardArc owns its Arc via a raw pointer).",
+    note=NOTE + "; rustc is the oracle for the probes; 'every client program' is reduced to the rule set (no abstract machine of client programs)",
+    technique="Coq reflection over finite marker tables extracted from source + rustc probe tie")
 CLAIMS["C03"] = proof(
     "Proved for every history and every initial count / add_permits argument in N: conservation count + alive + forgotten = initial + added (C03_conserve, hence never over-issues), "
     "try_acquire exact (C03_try_exact), drop returns exactly one, forget none, add_permits(n) exactly n. Hypothesis stated in the theorems: initial + added < 2^64 (the code has no overflow check). "
@@ -43,6 +57,4 @@ CLAIMS["C15"] = proof(
     "Proved for every history of the Mutex, Semaphore and RwLock machines: strong count = handles + owned guards + owning futures (C15_*_count); dropped exactly when the count reaches 0, at most once, "
     "for Mutex and Semaphore (C15_*_dropped_once); an owned guard implies strong >= 1. Drop-once for RwLock not yet proved (monitored). Memory safety of the unsafe Arc plumbing is outside the model. " + CORR, NOTE)
 
-NOT_APPLICABLE = [
-    dict(property_id="C16", reason="check under construction (marker tables from the translator + rustc probes); not claimed yet"),
-]
+NOT_APPLICABLE = []
